@@ -528,8 +528,20 @@ func runC09(w *World) {
 		}
 		// every deadline still present and not shortened beyond rounding
 		after := ni.dump()
-		for k, col := range after.cols {
-			for id, o := range col {
+		var aks []string
+		for k := range after.cols {
+			aks = append(aks, k)
+		}
+		sort.Strings(aks)
+		for _, k := range aks {
+			col := after.cols[k]
+			var ids []string
+			for id := range col {
+				ids = append(ids, id)
+			}
+			sort.Strings(ids)
+			for _, id := range ids {
+				o := col[id]
 				b := before.cols[k][id]
 				if b == nil || b.expires == 0 {
 					continue
